@@ -242,12 +242,77 @@ Proof.
 Qed.
 
 (* ---- one loop iteration per term ---- *)
+(* ---- the range tests of the repaired parser ---- *)
+Definition BND : Z := 1000000.
+
+Lemma num_range_letter : forall i rest, is_axis i -> num_in_range (L i :: rest) = true.
+Proof.
+  intros i rest Hi. unfold num_in_range. cbn [cur]. destruct (letter_not_digit i Hi) as [D [P _]]. rewrite D, P. reflexivity.
+Qed.
+
+Lemma num_range_print : forall n rest, 0 < n <= BND -> is_digit (cur rest) = false ->
+  num_in_range (print_int n ++ rest) = true.
+Proof.
+  intros n rest [Hn Hb] Hd. unfold num_in_range. rewrite (cur_print_nat_digit_int n rest Hn). cbn [orb].
+  rewrite (strtol10_digits n rest Hn Hd). unfold BND in Hb. apply andb_true_intro. split; apply Z.leb_le; lia.
+Qed.
+
+Lemma gof_num_le : forall a, 0 < a -> fst (get_op_fraction a) <= a.
+Proof.
+  intros a Ha. pose proof (gof_facts a Ha) as G. destruct (get_op_fraction a) as [n d]. destruct G as [G1 [G2 G3]].
+  cbn [fst]. destruct G3 as [->|[->|[->|[->|[->|[->|[->| ->]]]]]]]; lia.
+Qed.
+
+Lemma frac_tail_not_digit : forall d rest, is_digit (cur rest) = false -> is_digit (cur (frac_tail d ++ rest)) = false.
+Proof. intros d rest H. unfold frac_tail. destruct (d =? 1); [exact H|reflexivity]. Qed.
+
+Lemma rot_body_num_range : forall i v rest, is_axis i -> v <> 0 -> Z.abs v <= BND ->
+  num_in_range (rot_body i v ++ rest) = true.
+Proof.
+  intros i v rest Hi Hv Hb. unfold rot_body.
+  destruct (Z.abs v =? DEN); [apply num_range_letter; exact Hi|].
+  assert (Ha : 0 < Z.abs v) by lia. pose proof (gof_num_le (Z.abs v) Ha) as Hle.
+  pose proof (gof_facts (Z.abs v) Ha) as G. destruct (get_op_fraction (Z.abs v)) as [n d]. destruct G as [G1 [G2 G3]].
+  cbn [fst snd] in *. destruct (n =? 1); [apply num_range_letter; exact Hi|].
+  rewrite append_fraction_nil. rewrite <- !app_assoc. apply num_range_print; [lia|].
+  apply frac_tail_not_digit. reflexivity.
+Qed.
+
+Lemma tran_body_num_range : forall w rest, Rest rest -> w <> 0 -> Z.abs w <= BND ->
+  num_in_range (tran_body w ++ rest) = true.
+Proof.
+  intros w rest Hr Hw Hb. unfold tran_body.
+  assert (Ha : 0 < Z.abs w) by lia. pose proof (gof_num_le (Z.abs w) Ha) as Hle.
+  pose proof (gof_facts (Z.abs w) Ha) as G. destruct (get_op_fraction (Z.abs w)) as [n d]. destruct G as [G1 [G2 G3]].
+  cbn [fst] in Hle. rewrite append_fraction_nil. rewrite <- app_assoc. apply num_range_print; [lia|].
+  apply frac_tail_not_digit. destruct (rest_facts rest Hr) as [Rd _]. exact Rd.
+Qed.
+
+Definition norm4 (r : Z*Z*Z*Z) : Z :=
+  let '(a,b,c,d) := r in Z.max (Z.max (Z.abs a) (Z.abs b)) (Z.max (Z.abs c) (Z.abs d)).
+Lemma vec_in_range_norm : forall r, norm4 r <= 100000000 -> vec_in_range r = true.
+Proof.
+  intros [[[a b] c] d] H. unfold norm4 in H. unfold vec_in_range, comp_ok.
+  repeat (apply andb_true_intro; split); apply Z.leb_le; lia.
+Qed.
+Lemma norm_add_at : forall r i v, norm4 (add_at r i v) <= norm4 r + Z.abs v.
+Proof.
+  intros [[[a b] c] d] i v.
+  assert (E : add_at (a, b, c, d) i v = (a + v, b, c, d) \/ add_at (a, b, c, d) i v = (a, b + v, c, d) \/
+              add_at (a, b, c, d) i v = (a, b, c + v, d) \/ add_at (a, b, c, d) i v = (a, b, c, d + v)).
+  { unfold add_at. destruct i as [|p|p]; [left; reflexivity| |right; right; right; reflexivity].
+    destruct p as [p|p|]; [right; right; right; destruct p; reflexivity| |right; left; reflexivity].
+    destruct p; [right; right; right; reflexivity|right; right; right; reflexivity|right; right; left; reflexivity]. }
+  destruct E as [ -> | [ -> | [ -> | -> ] ] ]; unfold norm4; lia.
+Qed.
+
 Lemma loop_signed : forall f sg body rest r nt r' nt',
   (sg = 43 \/ sg = 45) -> good_first (body ++ rest) ->
+  num_in_range (body ++ rest) = true -> vec_in_range r' = true ->
   part_body (body ++ rest) (if sg =? 43 then DEN else - DEN) r nt = Some (rest, r', nt') ->
   forall num, part_loop (S f) (sg :: body ++ rest) num r nt = part_loop f rest 0 r' nt'.
 Proof.
-  intros f sg body rest r nt r' nt' Hsg [c [t [E [S _]]]] Hb num.
+  intros f sg body rest r nt r' nt' Hsg [c [t [E [S _]]]] Hn Hv Hb num.
   cbn [part_loop].
   assert (Hss : skip_space (sg :: body ++ rest) = sg :: body ++ rest)
     by (apply skip_space_nonspace; destruct Hsg as [->| ->]; reflexivity).
@@ -255,17 +320,20 @@ Proof.
   assert (E0 : (sg =? 0) = false) by (destruct Hsg as [->| ->]; reflexivity). rewrite E0.
   unfold part_step. cbn [cur adv].
   assert (Es : (sg =? 43) || (sg =? 45) = true) by (destruct Hsg as [->| ->]; reflexivity). rewrite Es.
-  rewrite E. rewrite (skip_space_nonspace c t S). rewrite <- E. rewrite Hb. reflexivity.
+  rewrite E. rewrite (skip_space_nonspace c t S). rewrite <- E.
+  unfold part_body_checked. rewrite Hn. cbn [negb]. rewrite Hb, Hv. reflexivity.
 Qed.
 
 Lemma loop_unsigned : forall f body rest r nt r' nt',
   good_first (body ++ rest) ->
+  num_in_range (body ++ rest) = true -> vec_in_range r' = true ->
   part_body (body ++ rest) DEN r nt = Some (rest, r', nt') ->
   part_loop (S f) (body ++ rest) DEN r nt = part_loop f rest 0 r' nt'.
 Proof.
-  intros f body rest r nt r' nt' [c [t [E [S [P [M Z0]]]]]] Hb.
+  intros f body rest r nt r' nt' [c [t [E [S [P [M Z0]]]]]] Hn Hv Hb.
   cbn [part_loop]. rewrite E. rewrite (skip_space_nonspace c t S). cbn [cur]. rewrite Z0.
-  unfold part_step. cbn [cur]. rewrite P, M. cbn [orb]. rewrite <- E. rewrite Hb. reflexivity.
+  unfold part_step. cbn [cur]. rewrite P, M. cbn [orb]. rewrite <- E.
+  unfold part_body_checked. rewrite Hn. cbn [negb]. rewrite Hb, Hv. reflexivity.
 Qed.
 
 (* ---- a whole row ---- *)
@@ -310,12 +378,26 @@ Qed.
 Lemma nt_ok_term : forall nt t, nt_ok nt -> nt_ok (term_nt nt t).
 Proof. intros nt [i v|w] H; cbn; [right; reflexivity|exact H]. Qed.
 
+Definition term_small (t : term) : Prop := Z.abs (term_val t) <= BND.
+Fixpoint sum_abs (ts : list term) : Z := match ts with [] => 0 | t :: u => Z.abs (term_val t) + sum_abs u end.
+Lemma sum_abs_nonneg : forall ts, 0 <= sum_abs ts.
+Proof. induction ts as [|t u IH]; cbn [sum_abs]; lia. Qed.
+Lemma term_apply_norm : forall r t, norm4 (term_apply r t) <= norm4 r + Z.abs (term_val t).
+Proof. intros r [i v|w]; cbn [term_apply term_val]; apply norm_add_at. Qed.
+Lemma term_num_range : forall t rest, term_ok t -> term_small t -> Rest rest -> num_in_range (term_body t ++ rest) = true.
+Proof.
+  intros [i v|w] rest Hok Hs Hr; unfold term_small in Hs; cbn in *.
+  - destruct Hok as [Hi Hv]. apply rot_body_num_range; assumption.
+  - apply tran_body_num_range; assumption.
+Qed.
+
 Lemma parse_render : forall ts first r nt f,
   Forall term_ok ts -> nt_ok nt -> (length ts < f)%nat -> (first = true -> ts <> []) ->
+  Forall term_small ts -> norm4 r + sum_abs ts <= 100000000 ->
   part_loop f (render first ts) (if first then DEN else 0) r nt
   = Ok (fold_left term_apply ts r, fold_left term_nt ts nt).
 Proof.
-  induction ts as [|t ts IH]; intros first r nt f Hok Hnt Hf Hne.
+  induction ts as [|t ts IH]; intros first r nt f Hok Hnt Hf Hne Hsm Hsum.
   - destruct first; [exfalso; apply Hne; reflexivity|].
     destruct f; [cbn in Hf; lia|]. reflexivity.
   - destruct f as [|f]; [cbn in Hf; lia|].
@@ -323,17 +405,21 @@ Proof.
     pose proof (render_false_rest ts) as Hr.
     pose proof (term_body_value t r nt (render false ts) Ht Hnt Hr) as Hv.
     pose proof (term_body_good_first t (render false ts) Ht) as Hg.
+    pose proof (proj1 (Forall_cons_iff _ _ _) Hsm) as [Hst Hsts].
+    pose proof (term_num_range t (render false ts) Ht Hst Hr) as Hnr.
+    pose proof (term_apply_norm r t) as Hnorm. pose proof (sum_abs_nonneg ts) as Hs0. cbn [sum_abs] in Hsum.
+    assert (Hvr : vec_in_range (term_apply r t) = true) by (apply vec_in_range_norm; lia).
     cbn [render fold_left].
     assert (IH' : part_loop f (render false ts) 0 (term_apply r t) (term_nt nt t)
                   = Ok (fold_left term_apply ts (term_apply r t), fold_left term_nt ts (term_nt nt t))).
-    { apply (IH false); [exact Hts|apply nt_ok_term; exact Hnt|cbn in Hf; lia|discriminate]. }
+    { apply (IH false); [exact Hts|apply nt_ok_term; exact Hnt|cbn in Hf; lia|discriminate|exact Hsts|lia]. }
     unfold sign_str. unfold sign_num in Hv.
     destruct (term_val t <? 0) eqn:Eneg.
-    + cbn [app]. rewrite (loop_signed f 45 (term_body t) (render false ts) r nt _ _ (or_intror eq_refl) Hg Hv).
+    + cbn [app]. rewrite (loop_signed f 45 (term_body t) (render false ts) r nt _ _ (or_intror eq_refl) Hg Hnr Hvr Hv).
       exact IH'.
     + destruct first.
-      * cbn [app]. rewrite (loop_unsigned f (term_body t) (render false ts) r nt _ _ Hg Hv). exact IH'.
-      * cbn [app]. rewrite (loop_signed f 43 (term_body t) (render false ts) r nt _ _ (or_introl eq_refl) Hg Hv).
+      * cbn [app]. rewrite (loop_unsigned f (term_body t) (render false ts) r nt _ _ Hg Hnr Hvr Hv). exact IH'.
+      * cbn [app]. rewrite (loop_signed f 43 (term_body t) (render false ts) r nt _ _ (or_introl eq_refl) Hg Hnr Hvr Hv).
         exact IH'.
 Qed.
 
@@ -481,29 +567,43 @@ Proof.
 Qed.
 
 (* THE ROW THEOREM: printing a row and parsing it back gives the same four numbers, for all integers *)
-Theorem row_roundtrip : forall x y z w, (x, y, z) <> (0, 0, 0) ->
+(* the entries of a row are at most 10^6 in absolute value (units of 1/24): the parser refuses larger numbers *)
+Definition row_bounded (x y z w : Z) : Prop := Z.abs x <= BND /\ Z.abs y <= BND /\ Z.abs z <= BND /\ Z.abs w <= BND.
+Lemma row_terms_small : forall x y z w, row_bounded x y z w ->
+  Forall term_small (row_terms x y z w) /\ sum_abs (row_terms x y z w) <= 4 * BND.
+Proof.
+  intros x y z w [Hx [Hy [Hz Hw]]]. unfold row_terms, term_small.
+  destruct (x =? 0), (y =? 0), (z =? 0), (w =? 0); cbn [app sum_abs term_val]; split;
+    repeat constructor; cbn [term_val]; try assumption; unfold BND in *; lia.
+Qed.
+
+Theorem row_roundtrip : forall x y z w, (x, y, z) <> (0, 0, 0) -> row_bounded x y z w ->
   parse_triplet_part (make_triplet_part (x, y, z) w style) 32 = Ok ((x, y, z, w), ntv).
 Proof.
-  intros x y z w Hnz. rewrite make_part_is_render. unfold parse_triplet_part.
-  pose proof (row_terms_ok x y z w) as Hok.
+  intros x y z w Hnz Hb. rewrite make_part_is_render. unfold parse_triplet_part.
+  pose proof (row_terms_ok x y z w) as Hok. destruct (row_terms_small x y z w Hb) as [Hsm Hsum].
   rewrite (parse_render (row_terms x y z w) true (0,0,0,0) 32 _ Hok).
   - rewrite row_terms_value, (row_terms_nt x y z w Hnz). reflexivity.
   - left; reflexivity.
   - pose proof (render_length (row_terms x y z w) true Hok). lia.
   - intros _. apply row_terms_nonempty. exact Hnz.
+  - exact Hsm.
+  - unfold BND in Hsum. cbn [norm4 Z.abs Z.max]. lia.
 Qed.
 
 (* the same with any compatible incoming notation (second and third part of a triplet) *)
-Theorem row_roundtrip_nt : forall x y z w nt, nt_ok nt -> (x, y, z) <> (0, 0, 0) ->
+Theorem row_roundtrip_nt : forall x y z w nt, nt_ok nt -> (x, y, z) <> (0, 0, 0) -> row_bounded x y z w ->
   parse_triplet_part (make_triplet_part (x, y, z) w style) nt = Ok ((x, y, z, w), ntv).
 Proof.
-  intros x y z w nt Hnt Hnz. rewrite make_part_is_render. unfold parse_triplet_part.
-  pose proof (row_terms_ok x y z w) as Hok.
+  intros x y z w nt Hnt Hnz Hb. rewrite make_part_is_render. unfold parse_triplet_part.
+  pose proof (row_terms_ok x y z w) as Hok. destruct (row_terms_small x y z w Hb) as [Hsm Hsum].
   rewrite (parse_render (row_terms x y z w) true (0,0,0,0) nt _ Hok Hnt).
   - rewrite row_terms_value. f_equal. f_equal.
     destruct Hnt as [->| ->]; [apply row_terms_nt; exact Hnz|apply term_nt_120].
   - pose proof (render_length (row_terms x y z w) true Hok). lia.
   - intros _. apply row_terms_nonempty. exact Hnz.
+  - exact Hsm.
+  - unfold BND in Hsum. cbn [norm4 Z.abs Z.max]. lia.
 Qed.
 
 (* ---- no commas inside a part ---- *)
@@ -592,6 +692,7 @@ Proof. intros. unfold count_occ_z. rewrite filter_app, app_length. reflexivity. 
   (* three printed rows separated by commas parse back to the three rows *)
   Theorem parse_three_rows : forall x0 y0 z0 t0 x1 y1 z1 t1 x2 y2 z2 t2,
     (x0, y0, z0) <> (0,0,0) -> (x1, y1, z1) <> (0,0,0) -> (x2, y2, z2) <> (0,0,0) ->
+    row_bounded x0 y0 z0 t0 -> row_bounded x1 y1 z1 t1 -> row_bounded x2 y2 z2 t2 ->
     parse_triplet (make_triplet_part (x0, y0, z0) t0 style ++ [44] ++
                    make_triplet_part (x1, y1, z1) t1 style ++ [44] ++
                    make_triplet_part (x2, y2, z2) t2 style) 32
@@ -600,7 +701,7 @@ Proof. intros. unfold count_occ_z. rewrite filter_app, app_length. reflexivity. 
        if ntv =? 104 then (if v3_eqb tr (0,0,0) then Ok (mkOp (transpose rt) tr ntv) else Fail)
        else Ok (mkOp rt tr ntv)).
   Proof.
-    intros x0 y0 z0 t0 x1 y1 z1 t1 x2 y2 z2 t2 H0 H1 H2.
+    intros x0 y0 z0 t0 x1 y1 z1 t1 x2 y2 z2 t2 H0 H1 H2 B0 B1 B2.
     set (p0 := make_triplet_part (x0, y0, z0) t0 style).
     set (p1 := make_triplet_part (x1, y1, z1) t1 style).
     set (p2 := make_triplet_part (x2, y2, z2) t2 style).
@@ -614,9 +715,9 @@ Proof. intros. unfold count_occ_z. rewrite filter_app, app_length. reflexivity. 
     change (p0 ++ [44] ++ p1 ++ [44] ++ p2) with (p0 ++ 44 :: (p1 ++ 44 :: p2)).
     rewrite (split_on_sep p0 _ [] N0), (split_on_sep p1 _ [] N1), (split_on_no_sep p2 [] N2). cbn [rev app].
     unfold p0, p1, p2.
-    rewrite (row_roundtrip_nt x0 y0 z0 t0 32 (or_introl eq_refl) H0).
-    rewrite (row_roundtrip_nt x1 y1 z1 t1 ntv (or_intror eq_refl) H1).
-    rewrite (row_roundtrip_nt x2 y2 z2 t2 ntv (or_intror eq_refl) H2).
+    rewrite (row_roundtrip_nt x0 y0 z0 t0 32 (or_introl eq_refl) H0 B0).
+    rewrite (row_roundtrip_nt x1 y1 z1 t1 ntv (or_intror eq_refl) H1 B1).
+    rewrite (row_roundtrip_nt x2 y2 z2 t2 ntv (or_intror eq_refl) H2 B2).
     reflexivity.
   Qed.
 
@@ -669,6 +770,13 @@ Lemma AA : at_facts 65 LA. Proof. unfold at_facts. style_hyps. Qed.
 Lemma Ah : at_facts 104 Lh. Proof. unfold at_facts. style_hyps. Qed.
 Lemma AH : at_facts 72 LH. Proof. unfold at_facts. style_hyps. Qed.
 
+(* every entry of the rotation and translation at most 10^6 in absolute value (in units of 1/24) *)
+Definition small1 (x : Z) : Prop := Z.abs x <= 1000000.
+Definition op_bounded (a : op) : Prop :=
+  let '((x0,y0,z0),(x1,y1,z1),(x2,y2,z2)) := rot a in let '(t0,t1,t2) := tran a in
+  (small1 x0 /\ small1 y0 /\ small1 z0) /\ (small1 x1 /\ small1 y1 /\ small1 z1) /\ (small1 x2 /\ small1 y2 /\ small1 z2) /\
+  (small1 t0 /\ small1 t1 /\ small1 t2).
+
 Definition rows_nonzero (a : op) : Prop :=
   let '(r0, r1, r2) := rot a in r0 <> (0,0,0) /\ r1 <> (0,0,0) /\ r2 <> (0,0,0).
 Definition cols_nonzero (a : op) : Prop :=
@@ -678,12 +786,17 @@ Definition cols_nonzero (a : op) : Prop :=
 Definition real_style (st ntv : Z) : Prop :=
   (st = 120 /\ ntv = 120) \/ (st = 88 /\ ntv = 120) \/ (st = 97 /\ ntv = 96) \/ (st = 65 /\ ntv = 96).
 
-Theorem triplet_roundtrip_real : forall a st ntv, real_style st ntv -> nota a <> 104 -> rows_nonzero a ->
+Theorem triplet_roundtrip_real : forall a st ntv, real_style st ntv -> nota a <> 104 -> rows_nonzero a -> op_bounded a ->
   exists s, triplet a st = Some s /\ parse_triplet s 32 = Ok (mkOp (rot a) (tran a) ntv).
 Proof.
-  intros [[[r0 r1] r2] [[t0 t1] t2] nt] st ntv Hst Hnt Hrows. cbn [nota] in Hnt.
+  intros [[[r0 r1] r2] [[t0 t1] t2] nt] st ntv Hst Hnt Hrows Hbd. cbn [nota] in Hnt.
   unfold rows_nonzero in Hrows. cbn [rot] in Hrows. destruct Hrows as [H0 [H1 H2]].
   destruct r0 as [[x0 y0] z0]. destruct r1 as [[x1 y1] z1]. destruct r2 as [[x2 y2] z2].
+  unfold op_bounded, small1 in Hbd. cbn [rot tran] in Hbd.
+  destruct Hbd as [[Bx0 [By0 Bz0]] [[Bx1 [By1 Bz1]] [[Bx2 [By2 Bz2]] [Bt0 [Bt1 Bt2]]]]].
+  assert (B0 : row_bounded x0 y0 z0 t0) by (unfold row_bounded, BND; repeat split; assumption).
+  assert (B1 : row_bounded x1 y1 z1 t1) by (unfold row_bounded, BND; repeat split; assumption).
+  assert (B2 : row_bounded x2 y2 z2 t2) by (unfold row_bounded, BND; repeat split; assumption).
   assert (Eh : is_hkl (mkOp ((x0,y0,z0),(x1,y1,z1),(x2,y2,z2)) (t0,t1,t2) nt) = false)
     by (unfold is_hkl; cbn [nota]; apply Z.eqb_neq; exact Hnt).
   destruct Hst as [[-> ->]|[[-> ->]|[[-> ->]|[-> ->]]]].
@@ -698,12 +811,12 @@ Proof.
 Qed.
 
 (* the default style: notation ' ' or 'x' prints xyz *)
-Theorem triplet_roundtrip_xyz : forall a, (nota a = 32 \/ nota a = 120) -> rows_nonzero a ->
+Theorem triplet_roundtrip_xyz : forall a, (nota a = 32 \/ nota a = 120) -> rows_nonzero a -> op_bounded a ->
   exists s, triplet a 32 = Some s /\ parse_triplet s 32 = Ok (mkOp (rot a) (tran a) 120).
 Proof.
-  intros a Hn Hr.
+  intros a Hn Hr Hb.
   destruct (triplet_roundtrip_real a 120 120 (or_introl (conj eq_refl eq_refl))) as [s [E P]];
-    [destruct Hn as [->| ->]; discriminate|exact Hr|].
+    [destruct Hn as [->| ->]; discriminate|exact Hr|exact Hb|].
   exists s. split; [|exact P].
   destruct a as [rt tr nt]. cbn [nota] in Hn. unfold triplet in *. cbn [nota] in *.
   destruct Hn as [->| ->]; exact E.
@@ -711,21 +824,40 @@ Qed.
 
 (* reciprocal-space styles 'h' 'H': the operator stores the transposed matrix and no translation *)
 Theorem triplet_roundtrip_hkl : forall a st, (st = 104 \/ st = 72) -> nota a = 104 -> tran a = (0,0,0) ->
-  cols_nonzero a ->
+  cols_nonzero a -> op_bounded a ->
   exists s, triplet a st = Some s /\ parse_triplet s 32 = Ok (mkOp (rot a) (0,0,0) 104).
 Proof.
-  intros [[[r0 r1] r2] tr nt] st Hst Hnt Htr Hcols. cbn [nota tran] in *. subst nt tr.
+  intros [[[r0 r1] r2] tr nt] st Hst Hnt Htr Hcols Hbd. cbn [nota tran] in *. subst nt tr.
   destruct r0 as [[x0 y0] z0]. destruct r1 as [[x1 y1] z1]. destruct r2 as [[x2 y2] z2].
+  unfold op_bounded, small1 in Hbd. cbn [rot tran] in Hbd.
+  destruct Hbd as [[Bx0 [By0 Bz0]] [[Bx1 [By1 Bz1]] [[Bx2 [By2 Bz2]] _]]].
+  assert (Z0 : Z.abs 0 <= 1000000) by (cbn; lia).
+  assert (B0 : row_bounded x0 x1 x2 0) by (unfold row_bounded, BND; repeat split; assumption).
+  assert (B1 : row_bounded y0 y1 y2 0) by (unfold row_bounded, BND; repeat split; assumption).
+  assert (B2 : row_bounded z0 z1 z2 0) by (unfold row_bounded, BND; repeat split; assumption).
   unfold cols_nonzero in Hcols. cbn [rot transpose] in Hcols. destruct Hcols as [H0 [H1 H2]].
   destruct Hst as [->| ->].
   - exists (make_triplet_part (x0, x1, x2) 0 104 ++ [44] ++ make_triplet_part (y0, y1, y2) 0 104 ++ [44] ++
             make_triplet_part (z0, z1, z2) 0 104).
     split; [unfold triplet, is_hkl; cbn [nota rot tran transpose]; reflexivity|].
-    rewrite (parse_three_rows 104 Lh 104 Ih1 Fh Ch Ah x0 x1 x2 0 y0 y1 y2 0 z0 z1 z2 0 H0 H1 H2).
+    rewrite (parse_three_rows 104 Lh 104 Ih1 Fh Ch Ah x0 x1 x2 0 y0 y1 y2 0 z0 z1 z2 0 H0 H1 H2 B0 B1 B2).
     reflexivity.
   - exists (make_triplet_part (x0, x1, x2) 0 72 ++ [44] ++ make_triplet_part (y0, y1, y2) 0 72 ++ [44] ++
             make_triplet_part (z0, z1, z2) 0 72).
     split; [unfold triplet, is_hkl; cbn [nota rot tran transpose]; reflexivity|].
-    rewrite (parse_three_rows 72 LH 104 IH1 FH CH AH x0 x1 x2 0 y0 y1 y2 0 z0 z1 z2 0 H0 H1 H2).
+    rewrite (parse_three_rows 72 LH 104 IH1 FH CH AH x0 x1 x2 0 y0 y1 y2 0 z0 z1 z2 0 H0 H1 H2 B0 B1 B2).
     reflexivity.
 Qed.
+
+Lemma roundtrip_nonvacuous :
+  real_style 97 96 /\ rows_nonzero (mkOp ((0,-24,0),(24,-24,0),(0,0,24)) (0,0,8) 32) /\
+  cols_nonzero (mkOp ((12,12,0),(-12,12,0),(0,0,24)) (0,0,0) 104) /\
+  op_bounded (mkOp ((0,-24,0),(24,-24,0),(0,0,24)) (0,0,8) 32) /\ op_bounded (mkOp ((12,12,0),(-12,12,0),(0,0,24)) (0,0,0) 104).
+Proof.
+  split; [right; right; left; split; reflexivity|].
+  unfold rows_nonzero, cols_nonzero, op_bounded, small1; cbn; repeat split; try discriminate; lia.
+Qed.
+
+(* "20000000x": refused by the repaired parser (the snapshot multiplied 24 * 20000000 in int) *)
+Lemma big_number_refused : parse_triplet_part [50;48;48;48;48;48;48;48;120] 32 = Fail.
+Proof. vm_compute. reflexivity. Qed.
